@@ -441,10 +441,11 @@ def run(prop, tier, seed, replay=None):
         distinct = len({(o["rid"], o["kind"], o["k"], o["errno"]) for o in outcomes})
         coverage = dict(
             evaluations=len(outcomes), distinct_nontrivial=distinct,
-            rule="one evaluation = one real victim process killed before (kill) or failed at (ENOSPC/EIO) one system call of the operation, then reopened by a fresh checker process; every directory-changing call of every sampled (pre-state, operation) is a boundary (quick tier: every second one of long operations); all are non-trivial (each changes the directory state at the crash point)",
+            rule="one evaluation = one real victim process killed before (kill) or failed at (ENOSPC/EIO) one system call of the operation, then reopened by a fresh checker process, then the same operation issued again on the recovered directory and the directory reopened once more; every directory-changing call of every sampled (pre-state, operation) is a boundary (quick tier: every second one of long operations); all are non-trivial (each changes the directory state at the crash point)",
             samples=samples, states=result["records"], transitions=result["records"],
             traces_validated_against_impl=result["runs"],
             crash_points=nk, failed_calls=nf, operations=[k for k in infos],
+            retries_after_recovery=len([o for o in outcomes if o.get("retry")]),
             model_prefix_states_checked=len(result["recs"]), model_alarms=result["failed"][:20],
             spec_drift=drift[:20], exhaustive=not quick)
         write_evidence(prop, tier, seed, "fault_enumeration", coverage, assumptions, time.time() - t0, len(violations))
